@@ -13,6 +13,13 @@ const POISON_FREE: u8 = 0xDD;
 const BACK: usize = 32;
 const QUARANTINE_MAX: usize = 64 << 20;
 
+/// Under AddressSanitizer (HBSIM_ASAN=1) the seam adds no red zones and no quarantine of its own, so that
+/// the sanitizer's shadow memory abuts the table's block and sees out-of-bounds reads and use after free.
+pub fn asan_mode() -> bool {
+    static M: std::sync::OnceLock<bool> = std::sync::OnceLock::new();
+    *M.get_or_init(|| std::env::var("HBSIM_ASAN").map_or(false, |v| v == "1"))
+}
+
 #[derive(Clone, Copy, Debug, Default)]
 pub struct SimAlloc;
 
@@ -63,9 +70,11 @@ unsafe impl Allocator for SimAlloc {
             }
             exact = s.exact_align;
         }
-        let front = front_for(align);
-        let under_align = if exact { (align * 2).max(16) } else { align.max(16) };
-        let under_size = front + size + BACK;
+        let asan = asan_mode();
+        let front = if asan { 0 } else { front_for(align) };
+        let back = if asan { 0 } else { BACK };
+        let under_align = if asan { align } else if exact { (align * 2).max(16) } else { align.max(16) };
+        let under_size = (front + size + back).max(1);
         let ul = Layout::from_size_align(under_size, under_align).map_err(|_| AllocError)?;
         // SAFETY: under_size > 0
         let base = unsafe { std::alloc::alloc(ul) };
@@ -79,7 +88,7 @@ unsafe impl Allocator for SimAlloc {
         unsafe {
             std::ptr::write_bytes(base, CANARY_FRONT, front);
             std::ptr::write_bytes(base.add(front), POISON_ALLOC, size);
-            std::ptr::write_bytes(base.add(front + size), CANARY_BACK, BACK);
+            std::ptr::write_bytes(base.add(front + size), CANARY_BACK, back);
         }
         let user = unsafe { base.add(front) };
         let mut s = sim();
@@ -122,6 +131,10 @@ unsafe impl Allocator for SimAlloc {
         if let Some(d) = check_canaries(&blk) {
             s.violate("alloc/canary", d);
         }
+        if asan_mode() {
+            free_block(&blk);
+            return;
+        }
         // poison and quarantine
         std::ptr::write_bytes((blk.base + blk.front) as *mut u8, POISON_FREE, blk.size);
         s.quarantine_bytes += blk.under_size;
@@ -151,7 +164,8 @@ pub fn check_canaries(b: &Block) -> Option<String> {
                 return Some(format!("write {} bytes before a block of size {} align {}", b.front - i, b.size, b.align));
             }
         }
-        for i in 0..BACK {
+        let back = b.under_size.saturating_sub(b.front + b.size).min(BACK);
+        for i in 0..back {
             if *p.add(b.front + b.size + i) != CANARY_BACK {
                 return Some(format!("write {} bytes past the end of a block of size {} align {}", i, b.size, b.align));
             }
